@@ -156,6 +156,8 @@ def handle (s : DState) (toks : List String) : Option Out :=
       if s.phase = 0 ∨ y > 65535 ∨ m > 255 ∨ d > 255 then none
       else some ({ s with cur := { s.cur with version := (y, m, d) } }, [])
     | _, _, _ => none
+  | ["icover"] =>   -- judged on the implementation side by predicate (refused, or every value right)
+    if s.phase ≠ 3 then none else some ({ s with phase := 0 }, ["oracle ok"])
   | ["ic"] =>
     if s.phase ≠ 3 then none else
     match s.cur.calcIc with
